@@ -3,6 +3,12 @@
 // ARP requests / probes / other ARP packets are executed in real time on the real handler (one
 // handler and session per scenario, scenarios in parallel); the ordered log of API calls and ARP
 // frames written must be accepted by the Lean ARP hunt machine and satisfy the Go-side oracle.
+// Function mode over RAW frames (arp.frame): generated frames (well-formed requests / probes / replies /
+// announcements, every header field corrupted, truncation at every length, 802.1Q / 802.1ad tags, group
+// source addresses, sender hardware address different from the Ethernet source, other EtherTypes, random)
+// go through the real Session.Parse, the PayloadID dispatch and arp.ProcessPacket of a handler with a given
+// hunt list and DHCP offer; Parse result, returned error and the reply written are compared with the Lean
+// composition `Model.ArpFrame.arpEventOf` + machine step, and with an independent Go reading of the frame.
 // The recording connection can hold one forged frame inside WriteTo (steps a<m>:<F|Y>, h): StopHunt is
 // then called while the frame is in flight – it must not return before the frame is on the wire, and
 // no forged frame may follow the restoring request.
@@ -10,6 +16,7 @@ package c13
 
 import (
 	"encoding/binary"
+	"errors"
 	"encoding/hex"
 	"fmt"
 	"net"
@@ -774,11 +781,251 @@ func evalTrace(c *core.Ctx, line string) *core.Case {
 		Oracle: func() (string, string) { return traceOracle(evs, frames, ops) }}
 }
 
+// ---------------------------------------------------------------------------------------------
+// arp.frame – raw frames through Parse + dispatch + ProcessPacket
+
+func errName(err error) string {
+	switch {
+	case err == nil:
+		return "nil"
+	case errors.Is(err, packet.ErrFrameLen):
+		return "ErrFrameLen"
+	case errors.Is(err, packet.ErrParseFrame):
+		return "ErrParseFrame"
+	case errors.Is(err, packet.ErrParseProtocol):
+		return "ErrParseProtocol"
+	case errors.Is(err, packet.ErrInvalidLen):
+		return "ErrInvalidLen"
+	}
+	return "other"
+}
+
+// frameOut reads the forged reply / probe reject written by one ProcessPacket call.
+func frameOut(frames [][]byte, in []byte) string {
+	// a reply "router IP is at our MAC" to target protocol address 255.255.255.255 is both the forged reply to a
+	// sender using that address and the probe reject for the router's address: told apart by the received frame
+	inProbe := len(in) >= 42 && string(in[28:32]) == "\x00\x00\x00\x00"
+	out := "-"
+	host := []byte(sess.HostMAC)
+	rip := sess.RouterIP4.As4()
+	for _, b := range frames {
+		if len(b) < 14+28 || b[12] != 0x08 || b[13] != 0x06 {
+			continue
+		}
+		arp := b[14:]
+		op := binary.BigEndian.Uint16(arp[6:8])
+		smac, sip, tip := arp[8:14], arp[14:18], arp[24:28]
+		switch {
+		case op == 2 && string(smac) == string(host) && string(sip) == string(rip[:]) && !(inProbe && string(tip) == "\xff\xff\xff\xff"):
+			out = "Y:" + hx(b[0:6])
+		case op == 2 && string(smac) == string(host) && string(tip) == "\xff\xff\xff\xff":
+			out = "J:" + hx(b[0:6]) + ":" + hx(sip)
+		default:
+			out = "?" + hx(b)
+		}
+	}
+	return out
+}
+
+// refFrame: independent reading of the frame (RFC 826 layout at absolute offsets, RFC 5227 probe /
+// announcement) and of what the handler has to do with it.
+func refFrame(hunt [][]byte, offerMAC, offerIP, p []byte) string {
+	if len(p) < 42 || p[6]&1 == 1 || p[12] != 0x08 || p[13] != 0x06 {
+		return "-"
+	}
+	if p[14] != 0 || p[15] != 1 || p[16] != 8 || p[17] != 0 || p[18] != 6 || p[19] != 4 {
+		return "-"
+	}
+	op := int(p[20])<<8 | int(p[21])
+	sha, spa, tpa := p[22:28], p[28:32], p[38:42]
+	ll := func(ip []byte) bool { return ip[0] == 169 && ip[1] == 254 }
+	if ll(spa) || ll(tpa) || op != 1 || string(spa) == string(tpa) {
+		return "-"
+	}
+	if string(spa) == "\x00\x00\x00\x00" { // probe
+		lan := sess.HomeLAN.Contains(netip.AddrFrom4([4]byte{tpa[0], tpa[1], tpa[2], tpa[3]}))
+		if len(offerIP) == 4 && string(offerMAC) == string(sha) && string(offerIP) != string(tpa) && lan {
+			return "J:" + hx(sha) + ":" + hx(tpa)
+		}
+		return "-"
+	}
+	rip := sess.RouterIP4.As4()
+	if string(tpa) != string(rip[:]) {
+		return "-"
+	}
+	for _, m := range hunt {
+		if string(m) == string(sha) {
+			return "Y:" + hx(sha)
+		}
+	}
+	return "-"
+}
+
+func evalFrame(c *core.Ctx, line string) *core.Case {
+	f := strings.Fields(line)
+	if len(f) != 10 {
+		return nil
+	}
+	var hunt [][]byte
+	if f[6] != "-" {
+		for _, m := range strings.Split(f[6], ",") {
+			hunt = append(hunt, core.UnHex(m))
+		}
+	}
+	offerMAC, offerIP, p := core.UnHex(f[7]), core.UnHex(f[8]), core.UnHex(f[9])
+	out := "-"
+	impl := core.Safely(func() string {
+		s, conn := sess.New(nil)
+		h, err := arp_spoofer.New(s)
+		if err != nil {
+			return "new: " + err.Error()
+		}
+		addrs := []packet.Addr{}
+		for i, m := range hunt {
+			addrs = append(addrs, packet.Addr{MAC: net.HardwareAddr(m), IP: ip4Of(50 + i)})
+		}
+		h.VerifSetHunt(addrs)
+		if len(offerMAC) == 6 && len(offerIP) == 4 {
+			s.SetDHCPv4IPOffer(net.HardwareAddr(offerMAC), netip.AddrFrom4([4]byte{offerIP[0], offerIP[1], offerIP[2], offerIP[3]}), packet.NameEntry{})
+		}
+		buf := append([]byte{}, p...) // the receive buffer
+		res := ""
+		ndpgen.Quietly(func() {
+			fr, perr := s.Parse(buf)
+			conn.Take()
+			ret := "-"
+			// the dispatch of the library's packet loop: an error drops the frame, PayloadARP goes to the ARP handler
+			if perr == nil && fr.PayloadID == packet.PayloadARP {
+				ret = errName(h.ProcessPacket(fr))
+			}
+			out = frameOut(conn.Take(), p)
+			pe := 0
+			if perr != nil {
+				pe = 1
+			}
+			res = fmt.Sprintf("perr=%d pid=%d ret=%s out=%s", pe, int(fr.PayloadID), ret, out)
+		})
+		h.Close()
+		return res
+	})
+	return &core.Case{Line: line, Impl: impl, Trivial: len(p) < 42,
+		Cmp: func(a, b string) bool { return a == strings.SplitN(b, " | ", 2)[0] },
+		Oracle: func() (string, string) {
+			if impl == "panic" {
+				return "Parse / arp.ProcessPacket panicked on a raw frame", ""
+			}
+			if want := refFrame(hunt, offerMAC, offerIP, p); want != out {
+				return fmt.Sprintf("the ARP handler wrote %q for this frame; the reference reading of the frame says %q", out, want), ""
+			}
+			return "", ""
+		}}
+}
+
 func Eval(c *core.Ctx, line string) *core.Case {
 	if strings.HasPrefix(line, "arp.trace ") {
 		return evalTrace(c, line)
 	}
+	if strings.HasPrefix(line, "arp.frame ") {
+		return evalFrame(c, line)
+	}
 	return nil
+}
+
+// genFrames: raw frames for the function mode.
+func genFrames(c *core.Ctx) []string {
+	r := c.Rnd
+	rip := sess.RouterIP4.As4()
+	lan := []byte{192, 168, 0, 0}
+	prefix := fmt.Sprintf("arp.frame %s %s %s 24 %s", hx(sess.HostMAC), hx(sess.RouterMAC), hx(lan), hx(rip[:]))
+	var lines []string
+	emit := func(hunt [][]byte, om, oip, frame []byte) {
+		hs := "-"
+		if len(hunt) > 0 {
+			x := []string{}
+			for _, m := range hunt {
+				x = append(x, hx(m))
+			}
+			hs = strings.Join(x, ",")
+		}
+		lines = append(lines, fmt.Sprintf("%s %s %s %s %s", prefix, hs, hx(om), hx(oip), hx(frame)))
+	}
+	pad := func(b []byte) []byte { return append(b, make([]byte, 18)...) }
+	ips := [][]byte{{192, 168, 0, 100}, rip[:], {192, 168, 0, 200}, {0, 0, 0, 0}, {169, 254, 1, 2}, {8, 8, 8, 8}, {192, 168, 0, 77}, {255, 255, 255, 255}}
+	n := c.Scale(2500, 60000)
+	for i := 0; i < n; i++ {
+		m, other := macOf(r.Intn(3)), macOf(3+r.Intn(2))
+		hunt := [][]byte{m}
+		if r.Intn(4) == 0 {
+			hunt = append(hunt, macOf(7))
+		}
+		if r.Intn(8) == 0 {
+			hunt = nil
+		}
+		sha := []byte(m)
+		if r.Intn(4) == 0 {
+			sha = other // not hunted
+		}
+		esrc := sha
+		if r.Intn(4) == 0 { // relayed by a bridge / sender hardware address differs from the Ethernet source
+			esrc = [][]byte{m, other, macOf(6)}[r.Intn(3)]
+		}
+		op := []uint16{1, 1, 1, 2, 3, 0, 256}[r.Intn(7)]
+		sip, tip := ips[0], ips[1]
+		if r.Intn(3) == 0 {
+			sip = ips[r.Intn(len(ips))]
+		}
+		if r.Intn(3) == 0 {
+			tip = ips[r.Intn(len(ips))]
+		}
+		var om, oip []byte
+		switch r.Intn(4) {
+		case 0:
+			om, oip = sha, tip
+		case 1:
+			om, oip = sha, []byte{192, 168, 0, 78}
+		case 2:
+			om, oip = other, []byte{192, 168, 0, 78}
+		}
+		fr := arpFrameVia(esrc, op, sha, netip.AddrFrom4([4]byte{sip[0], sip[1], sip[2], sip[3]}), make([]byte, 6), netip.AddrFrom4([4]byte{tip[0], tip[1], tip[2], tip[3]}))
+		if r.Intn(2) == 0 {
+			fr = pad(fr)
+		}
+		switch r.Intn(14) {
+		case 0: // header field corruption
+			k := []int{14, 15, 16, 17, 18, 19, 20, 21}[r.Intn(8)]
+			fr[k] = []byte{0, 1, 4, 6, 8, 0x80, byte(r.Intn(256))}[r.Intn(7)]
+		case 1: // truncation at every length
+			fr = fr[:r.Intn(len(fr)+1)]
+		case 2: // 802.1Q / 802.1ad tag in front of the EtherType
+			tag := [][]byte{{0x81, 0x00, 0x00, 0x05}, {0x88, 0xa8, 0x00, 0x05, 0x81, 0x00, 0x00, 0x06}}[r.Intn(2)]
+			fr = append(append(append([]byte{}, fr[:12]...), tag...), fr[12:]...)
+		case 3: // group bit in the Ethernet source
+			fr[6] |= 1
+		case 4: // other EtherType
+			et := []uint16{0x0800, 0x86dd, 0x0805, 0x0807, 0x8035, 0x0600, 0x05dc, 0x88cc}[r.Intn(8)]
+			fr[12], fr[13] = byte(et>>8), byte(et)
+		case 5: // random flip anywhere
+			fr[r.Intn(len(fr))] ^= byte(1 << uint(r.Intn(8)))
+		case 6: // random bytes
+			fr = c.RandBytes(r.Intn(70))
+		case 7: // frame sent by the host itself
+			copy(fr[6:12], sess.HostMAC)
+		}
+		emit(hunt, om, oip, fr)
+	}
+	// truncation of a well-formed request of a hunted host at every length, every hlen / plen value
+	base := pad(arpFrame(1, macOf(0), ip4Of(0), make([]byte, 6), sess.RouterIP4))
+	for k := 0; k <= len(base); k++ {
+		emit([][]byte{macOf(0)}, nil, nil, base[:k])
+	}
+	for v := 0; v < 256; v++ {
+		for _, off := range []int{18, 19} {
+			f := append([]byte{}, base...)
+			f[off] = byte(v)
+			emit([][]byte{macOf(0)}, nil, nil, f)
+		}
+	}
+	return lines
 }
 
 func genScenario(c *core.Ctx) string {
@@ -823,7 +1070,7 @@ func genScenario(c *core.Ctx) string {
 
 // Gen is the C13 correspondence run.
 func Gen(c *core.Ctx) {
-	c.Res.Rule = "arp.trace: real-time scenarios (StartHunt incl. invalid addresses and MACs sharing one IPv4, StopHunt incl. with another address than StartHunt used or the address of another hunted MAC, Close over up to 3 MACs, received requests for the router / another address from hunted and non-hunted ARP senders incl. frames relayed by a bridge (Ethernet source differs from the ARP sender, both directions), hunt-list content dumped after every call, probes with no / equal / different DHCP offer for in-LAN and foreign addresses, replies and announcements, pauses up to 6.3 s, 7.8 s tail; StopHunt / StartHunt / Close called while a forged reply or announcement is held inside the connection's WriteTo) run in parallel, one handler each; the ordered log must be accepted by the Lean ARP hunt machine (6 s ticker as a lower bound between forged frames of one loop); the oracle checks every forged / restoring / reject frame, API results, list size, the undo sequence after StopHunt within one cycle, no forged frame after the restoring request unless hunted again, Close, and the period"
+	c.Res.Rule = "arp.frame: raw frames (requests / probes / replies / announcements from hunted and other senders, sender hardware address different from the Ethernet source, every ARP header byte corrupted, all hlen / plen values, truncation at every length, 802.1Q / 802.1ad tags, group source addresses, other EtherTypes, bit flips, random bytes, DHCP offers none / equal / different / for another MAC) through Session.Parse, the PayloadID dispatch and arp.ProcessPacket – Parse result, returned error and reply written vs the Lean composition arpEventOf + machine step vs an independent Go reading of the frame.  arp.trace: real-time scenarios (StartHunt incl. invalid addresses and MACs sharing one IPv4, StopHunt incl. with another address than StartHunt used or the address of another hunted MAC, Close over up to 3 MACs, received requests for the router / another address from hunted and non-hunted ARP senders incl. frames relayed by a bridge (Ethernet source differs from the ARP sender, both directions), hunt-list content dumped after every call, probes with no / equal / different DHCP offer for in-LAN and foreign addresses, replies and announcements, pauses up to 6.3 s, 7.8 s tail; StopHunt / StartHunt / Close called while a forged reply or announcement is held inside the connection's WriteTo) run in parallel, one handler each; the ordered log must be accepted by the Lean ARP hunt machine (6 s ticker as a lower bound between forged frames of one loop); the oracle checks every forged / restoring / reject frame, API results, list size, the undo sequence after StopHunt within one cycle, no forged frame after the restoring request unless hunted again, Close, and the period"
 	lines := c.CorpusLines()
 	fixed := []string{
 		"s0:0,w300,x0", "s0:0,s0:0,s0:1,w6300,x0", "s0:0,s1:0,w300,x0,w300", "s0:0,s1:1,q0:1,q1:0,q2:1,x1,q1:1",
@@ -880,6 +1127,44 @@ func Gen(c *core.Ctx) {
 		}
 	}
 	c.Res.Extra["traces_validated_against_impl"] = len(scns)
+	// function mode over raw frames
+	for _, l := range lines {
+		if strings.HasPrefix(l, "arp.frame ") {
+			if cs := evalFrame(c, l); cs != nil {
+				cs.Class = "corpus-frame"
+				c.Add(*cs)
+			}
+		}
+	}
+	nf := 0
+	for _, l := range genFrames(c) {
+		if cs := evalFrame(c, l); cs != nil {
+			cs.Class = "frame"
+			c.Add(*cs)
+			nf++
+		}
+	}
+	c.Res.Extra["raw_frames_through_parse_and_handler"] = nf
 }
 
 var Runner = core.Runner{Gen: Gen, Eval: Eval}
+
+// FrameRunner is the raw-frame function mode alone (Parse + dispatch + arp.ProcessPacket on any bytes);
+// C08 ("no input panics") runs it as one of its areas.
+var FrameRunner = core.Runner{
+	Gen: func(c *core.Ctx) {
+		c.Res.Rule = "arp.frame: raw frames through Session.Parse, the PayloadID dispatch and arp.ProcessPacket (see C13)"
+		for _, l := range genFrames(c) {
+			if cs := evalFrame(c, l); cs != nil {
+				cs.Class = "arp-frame"
+				c.Add(*cs)
+			}
+		}
+	},
+	Eval: func(c *core.Ctx, line string) *core.Case {
+		if strings.HasPrefix(line, "arp.frame ") {
+			return evalFrame(c, line)
+		}
+		return nil
+	},
+}
